@@ -92,6 +92,12 @@ def emit(name, prop, text, sources, snippets):
                        extracted={k: dict(text=" ".join(v.split())[:200], sha256=sha(v)[:16]) for k, v in snippets.items()}))
 
 
+def note(msg):
+    """the Python side already sees that a theorem over the generated file will fail: say which entry (DESIGN §3.5);
+    the verdict itself is left to `lake build`"""
+    print("gen_tables: note: " + msg)
+
+
 # ------------------------------------------------------------------------------------------ source text helpers
 
 class Src:
@@ -408,6 +414,15 @@ def gen_dna2int(repo):
     if len(uses) != 2:
         fail("%s: expected the bit test `((DNA2INT[..] >> shift) & 1) == 1` twice (build_partlevel, rank), found %d"
              % (rel, len(uses)))
+    syms = [(c, tab[ord(c)]) for c in "ACGTN$"]
+    for i, (a, va) in enumerate(syms):
+        if va >= 2 ** height:
+            note("DNA2INT['%s'] = %d does not fit %d levels: dna2int_codes_fit_height / dna2int_generated_ok will fail" % (a, va, height))
+        for b, vb in syms[i + 1:]:
+            if va == vb:
+                note("DNA2INT['%s'] = DNA2INT['%s'] = %d: dna2int_generated_ok will fail" % (a, b, va))
+    if height != 3:
+        note("height = %d: the mirror model is written for 3 levels, dna2int_codes_fit_height will fail" % height)
     text = (
         "/-! GENERATED by tools/gen_tables.py (property C17) — do not edit.\n"
         "Extracted from the source text of `" + rel + "` on every `./check C17`:\n"
@@ -495,6 +510,11 @@ def gen_limits(repo):
     if len(g) != 1:
         fail("%s: expected exactly one guard `if self.band.num_cells() > MAX_CELLS {`, found %d" % (relb, len(g)))
     b_.snippets["MAX_CELLS guard"] = g[0]
+    if min_pw != min_poa:
+        note("MIN_SCORE differs: pairwise %d, poa %d: min_score_pairwise_eq_poa will fail" % (min_pw, min_poa))
+    for nm, v in (("pairwise", min_pw), ("poa", min_poa)):
+        if 2 * v < -2 ** 31:
+            note("2 * MIN_SCORE (%s) = %d < -2^31: two_min_scores_no_i32_overflow will fail" % (nm, 2 * v))
     text = (
         "/-! GENERATED by tools/gen_tables.py (properties C01, C02, C16) — do not edit.\n"
         "Extracted from the source text of `" + relm + "`, `" + relb + "`, `" + relq + "`\n"
@@ -562,6 +582,18 @@ def gen_tbcodes(repo):
                         ("get_%s_bits" % fld, r"\bfn\s+get_%s_bits\s*\([^)]*\)\s*->\s*u16\s*\{[^}]*self\s*\.\s*get_bits\s*\(\s*%s\s*\)" % (fld, p))):
             if len(re.findall(rx, s.code)) != 1:
                 fail("%s: `%s` no longer is the accessor of the field at %s" % (rel, acc, p))
+    for i, (a, va) in enumerate(codes):
+        if va > tb_max:
+            note("%s = %d > TB_MAX = %d: tb_codes_le_max will fail (the assert! in set_bits would fire)" % (a, va, tb_max))
+        for b, vb in codes[i + 1:]:
+            if va == vb:
+                note("%s = %s = %d: tb_codes_distinct will fail" % (a, b, va))
+    for i, (a, pa) in enumerate(pos):
+        if pa + 4 > cell_bits:
+            note("%s = %d: the field leaves the %d-bit cell: tb_fields_disjoint will fail" % (a, pa, cell_bits))
+        for b, pb in pos[i + 1:]:
+            if abs(pa - pb) < 4:
+                note("fields at %s = %d and %s = %d overlap: tb_fields_disjoint will fail" % (a, pa, b, pb))
     out = ["/-! GENERATED by tools/gen_tables.py (properties C01, C02) — do not edit.",
            "Extracted from the source text of `" + rel + "` on every `./check C01|C02`: the traceback-cell",
            "constants (`I_POS`, `D_POS`, `S_POS`, `TB_*`), the 4-bit field mask used by `set_bits`/`get_bits` and the width of",
